@@ -724,6 +724,12 @@ def check_exec(ctx):
                         push = 'other:' + canon(e.call.args[0])
                 if e.kind == 'del':
                     dele = canon(e.obj)
+                if e.kind == 'store_sub' and canon(e.obj) == stack and isinstance(e.name, ast.Slice) and isinstance(e.value, (ast.List, ast.Tuple)) and len(e.value.elts) == 1 \
+                        and any(isinstance(x, ast.Call) and canon(x.func) == OP for x in ast.walk(e.value.elts[0])):
+                    # stack[-n:] = [result]: the operands are removed and the result takes their place
+                    sl = canon(ast.Subscript(value=e.obj, slice=e.name, ctx=ast.Load()))
+                    dele = sl
+                    push = 'back' if e.name.upper is None and e.name.lower is not None else ('front' if e.name.lower is None and e.name.upper is not None else 'other:' + sl)
                 if e.kind == 'call' and canon(e.call.func) == OP:
                     if is_leaf:
                         leaf = canon(e.call)
@@ -789,7 +795,11 @@ def check_exec(ctx):
             body_t = canon(lam.body, {lam.args.args[0].arg: 'PKT'})
             empties = {n_.targets[0].id for n_ in ast.walk(cc.node) if isinstance(n_, ast.Assign) and isinstance(n_.targets[0], ast.Name)
                        and isinstance(n_.value, (ast.List, ast.Tuple)) and not n_.value.elts}
-            ok = any(body_t.startswith('exec_compiled_expr(PKT, %s, ops, *' % x) for x in empties | {'[]', '()'}) and 'compile_expr(root_expr).as_list()' in unparse(cc.node)
+            call_ = lam.body
+            second_empty = isinstance(call_, ast.Call) and len(call_.args) >= 2 and ((isinstance(call_.args[1], (ast.List, ast.Tuple)) and not call_.args[1].elts)
+                                                                                     or (isinstance(call_.args[1], ast.Name) and call_.args[1].id in empties))
+            ok = (any(body_t.startswith('exec_compiled_expr(PKT, %s, ops, *' % x) for x in empties | {'[]', '()'}) or (second_empty and body_t.startswith('exec_compiled_expr(PKT, ') and ', ops, *' in body_t)) \
+                and 'compile_expr(root_expr).as_list()' in unparse(cc.node)
         if ok:
             ctx.holds(rule, cc, 'lambda pkt, *v, **k: exec_compiled_expr(pkt, args, compile_expr(expr).as_list(), *v, **k)', 'the callable runs the compiled program on the packet', cc.node.lineno, clause='g')
         else:
